@@ -104,6 +104,12 @@ func ebnfRun(args []string) error {
 			}
 			text := p.String()
 			real["text"] = text
+			for _, bad := range staticForbid[id] {
+				if strings.Contains(text, bad) {
+					real["status"] = fmt.Sprintf("spurious: String() contains %q", bad)
+					return
+				}
+			}
 			for _, want := range staticExpect[id] {
 				if !strings.Contains(text, want) {
 					real["status"] = fmt.Sprintf("missing: String() does not contain %q", want)
